@@ -746,6 +746,8 @@ class MindsDBParser(Parser):
         nullable = True
         if hasattr(p, 'NOT'):
             nullable = False
+        if not isinstance(p.table_column, TableColumn):
+            raise ParsingException('NULL / NOT NULL can not be applied to the list of primary keys')
         p.table_column.nullable = nullable
         return p.table_column
 
